@@ -314,7 +314,7 @@ func init() {
 		Phases: func(tier string, seed int64) []rt.Phase {
 			maxLen, g, m, rn, rc, itc, trn, sn := 2, 3000, 3000, 2000, 240, 40, 4, 4000
 			if tier == "thorough" {
-				maxLen, g, m, rn, rc, itc, trn, sn = 3, 50000, 50000, 50000, 6000, 600, 60, 60000
+				maxLen, g, m, rn, rc, itc, trn, sn = 3, 50000, 50000, 50000, 3000, 600, 60, 40000
 			}
 			kinds := gram.AllKinds()
 			per := 60
